@@ -160,6 +160,11 @@ class CollectionAttrMutator(metaclass=ABCMeta):
             self.add_items(items)
             return self
         if self.collection and self.prepare_item:
+            # Preparing items edits the collection item by item; do that on a
+            # private copy so that neither the caller's collection nor the
+            # instance's current value is ever modified (or left half-edited
+            # if a preparer raises).
+            self.collection = protect_via_deepcopy(self.collection)
             self._prepare_items()
         return self
 
